@@ -1417,8 +1417,13 @@ func runC06() {
 		n := 1 + simrt.Choose(4, "ndyn")
 		for k := 0; k < n; k++ {
 			cidr := fmt.Sprintf("172.%d.%d.0/24", 16+j, k)
+			// metrics at the edges of the 16-bit field travel like any other
+			dynMetric := []uint16{0, 0, 1, 65534, 65535}[simrt.Choose(5, "dynmetric")]
+			if dynMetric >= 65534 {
+				simrt.Probe("c06_dynamic_route_with_saturated_metric")
+			}
 			m.On(j, "manage", func() {
-				if _, err := nd.A.ManageRoute("add", cidr, 0); err != nil {
+				if _, err := nd.A.ManageRoute("add", cidr, dynMetric); err != nil {
 					simrt.Failf("harness", "ManageRoute add failed", "%v", err)
 				}
 			})
